@@ -573,6 +573,12 @@ def decide(prop, tier, seed, cfg, scratch, index, spec_dir, contracts_dir, evide
                     now = engine.os_effects(engine.unit_orig_text(u))
                 except Exception:
                     continue
+                ok_ = u['ident'] + ' #order'
+                if prop == 'C19' and ok_ in eff_base:
+                    seq = engine.wipe_order(engine.unit_orig_text(u))
+                    if seq != eff_base[ok_]:
+                        frame_changed.append('%s (order of wipe / lock / early-return points: %s -> %s)' % (
+                            u['ident'], ' '.join(eff_base[ok_])[:160], ' '.join(seq)[:160]))
                 if now != eff_base[u['ident']]:
                     diff = ['%s: %d -> %d' % (k, eff_base[u['ident']].get(k, 0), now.get(k, 0))
                             for k in sorted(set(now) | set(eff_base[u['ident']])) if now.get(k, 0) != eff_base[u['ident']].get(k, 0)]
